@@ -29,3 +29,18 @@ elab "#audit_namespace " ns:ident : command => do
     let axs ← liftCoreM <| Lean.collectAxioms n
     logInfo m!"AXIOMS {n} : {axs.qsort (fun a b => a.toString < b.toString)}"
   logInfo m!"AUDIT {nsName} theorems={names.size}"
+
+/-- `#audit_names a b c …`: the same line per listed theorem (for theorems that live in another
+    property's namespace but discharge an obligation of this one) -/
+elab "#audit_names " ns:ident+ : command => do
+  let env ← getEnv
+  let mut k : Nat := 0
+  for n in ns do
+    let name := n.getId
+    match env.find? name with
+    | some (.thmInfo _) =>
+      let axs ← liftCoreM <| Lean.collectAxioms name
+      logInfo m!"AXIOMS {name} : {axs.qsort (fun a b => a.toString < b.toString)}"
+      k := k + 1
+    | _ => throwError "#audit_names: {name} is not a theorem"
+  logInfo m!"AUDIT names theorems={k}"
